@@ -48,6 +48,15 @@ class FrameSetup(object):
     def soff(self, name):
         return record_field(self.srec, name)[1]
 
+    def entry_bytes(self, off, n):
+        """The bytes of the interface record at offset `off` as they are at entry of parseFrame (for "unchanged" tests)."""
+        if getattr(self, '_entry', None) is None:
+            st0 = new_state()
+            self.build(st0)
+            self._entry = st0
+        st0 = self._entry
+        return tuple(st0.canon(b) for b in mem.load_bytes(st0, st0.objs['st'], C(off), n))
+
     def build(self, st):
         fr = mk_obj(st, 'frame', self.frame_size, kind='input', default='sym')
         mk_obj(st, 'ext:ctx', 1, kind='ext', default='unknown')
